@@ -107,6 +107,37 @@ theorem C07_unbond_stsei_credits_sender_only (st : HubSt) (inv : ClaimInv st) (u
     exact inv.future i hi
   · exact inv.histBound
 
+/-- **The claim recorded is the amount sent less the peg fee — exactly.** A successful bSei unbond
+    of `amount` by `user`, whether or not it closes the batch: the user's claim in the batch that was
+    open grows by `withFee`, where `amount − withFee` is the peg fee — at most ⌊amount × fee⌋ (the
+    product rounded *down*), zero when the rate is at or above the threshold — and nobody else's
+    claim, and no claim of the user in another batch, changes. -/
+theorem C07_unbond_bsei_claim_is_amount_less_fee (h h' : HubSt) (e : HubEnv) (amount : Nat) (user : Addr)
+    (ms : List Msg) (inv : ∀ st, h.actualState e = .ok st → ClaimInv st)
+    (hx : h.unbondB e amount user = .ok (h', ms)) :
+    ∃ st withFee, h.actualState e = .ok st ∧
+      h'.waitB user st.batchId = st.waitB user st.batchId + withFee ∧
+      withFee ≤ amount ∧ amount - withFee ≤ mulDec amount st.fee ∧ (st.thr ≤ st.bRate → withFee = amount) ∧
+      (∀ u i, (u, i) ≠ (user, st.batchId) → h'.waitB u i = st.waitB u i ∧ h'.waitS u i = st.waitS u i) ∧
+      h'.waitS user st.batchId = st.waitS user st.batchId := by
+  obtain ⟨st, supply, withFee, tok, hst, _, hfee, _, _, _, hcase⟩ := unbondB_spec h h' e amount user ms hx
+  have f := pegFeeOnBurn_spec st supply amount withFee hfee
+  have cr := C07_unbond_bsei_credits_sender_only st (inv st hst) user supply amount withFee
+  simp only [] at cr
+  have own : (st.afterUnbondB user supply amount withFee).waitS user st.batchId = st.waitS user st.batchId := by
+    have a := addWait_claims st (inv st hst).wf user st.batchId 0 0
+    show (st.addWait user st.batchId withFee 0).waitS user st.batchId = _
+    simp [addWait, upd]
+  rcases hcase with ⟨_, um, hp, _⟩ | ⟨_, hh, _⟩
+  · have sp := processUndelegations_spec _ h' e um hp
+    have wb : h'.waitB = (st.afterUnbondB user supply amount withFee).waitB := sp.2.2.2.2.2.2.2.2.2.2.2.2.1
+    have ws : h'.waitS = (st.afterUnbondB user supply amount withFee).waitS := sp.2.2.2.2.2.2.2.2.2.2.2.2.2.1
+    refine ⟨st, withFee, hst, by rw [wb]; exact cr.2.1, f.1, f.2.1, f.2.2.1, ?_, by rw [ws]; exact own⟩
+    intro u i hne
+    rw [wb, ws]; exact cr.2.2.2.2 u i hne
+  · subst hh
+    exact ⟨st, withFee, hst, cr.2.1, f.1, f.2.1, f.2.2.1, cr.2.2.2.2, own⟩
+
 /-- Closing a batch: the history entry stores exactly the batch totals (= the sums of all users'
     claims), a new empty batch opens with the next id. -/
 theorem C07_undelegation_keeps_claims (h h' : HubSt) (e : HubEnv) (ms : List Msg) (inv : ClaimInv h)
